@@ -1018,6 +1018,11 @@ func (g *c04Gen) sortedCase(kind string, thorough bool) *c04Case {
 		rid = rnd.rng(1, 3) // the first references have no records
 	}
 	for ref := 0; ref < nRefs; ref++ {
+		if kind == "bai" && rid > 9 {
+			// the BAM harness header has ten references (normalise caps ids at 9): a further
+			// reference would be folded onto id 9 and make the "sorted" input unsorted
+			break
+		}
 		n := rnd.rng(0, 7)
 		if rnd.coin(1, 6) {
 			n = rnd.rng(8, 25)
